@@ -53,6 +53,15 @@ CHECKS["C15"] = dict(
          "are excluded from the main jobs by the per-weight ranges and explored by dedicated region jobs.",
     ref="DESIGN.md §3 C15", technique="symbolic execution (z3 proxies) of the real assignment routine with solver contract stub, exhaustive path exploration within bounds")
 
+CHECKS["C11"] = dict(
+    text="Bounded symbolic execution of the real StringNode.edits -> StringEdit -> string_edit_distance -> EditDistance "
+         "(penalty 0) with EVERY character of both strings symbolic over an alphabet as large as the total length, so z3 ranges "
+         "over every equality pattern and the verdict covers all strings of the stated lengths over any alphabet; oracle: the "
+         "script spells both strings in order and the number of kept characters equals the LCS length, where the LCS is a z3 "
+         "If-DP over the same symbolic characters (reference model, itself cross-checked against brute force each run).",
+    note=TB + "Strings longer than the bound and bytes objects are outside the claim.",
+    ref="DESIGN.md §3 C11", technique="symbolic execution (z3 proxies) of the real string edit distance against a z3 LCS reference, exhaustive within length bounds")
+
 NOT_APPLICABLE = {
     "C12": "every route from leaf text to output and every oracle (loaders) is C code (json.dumps, csv, libyaml, plistlib, "
            "html.escape) behind which a symbolic engine must realise the input; nothing symbolic is left to decide (DESIGN §3 C12)",
